@@ -104,7 +104,7 @@ def _table(name, pool, w, tag, k, i1, i2, i3, flag, g, n, setv, simple):
     return None, None
 
 
-def tpl_cmd(cls, m, k, i1, i2, i3, flag, g, n, setv, _twin=False):
+def tpl_cmd(cls, m, k, i1, i2, i3, flag, g, n, setv, lk=0, _twin=False):
     w = World("c17.cmd")
     code = 0
     try:
@@ -123,6 +123,8 @@ def tpl_cmd(cls, m, k, i1, i2, i3, flag, g, n, setv, _twin=False):
         w.settle()
         A.cancel(1); B.cancel(1)
         w.settle()
+        if lk == 1:          # same history, pools locked: spawning commands are refused with a message-less exception
+            A.lock(); B.lock()
         if _observe(w, A, "A") != _observe(w, B, "B"):
             return 1702
         session = ControlSession(_Server(A), None, None)
@@ -253,10 +255,10 @@ def tpl_conv(x1, a1, x2, a2, x3, a3, x4, a4, _twin=False):
 
 def families(tier):
     fams = []
-    P = ["cls", "m", "k", "i1", "i2", "i3", "flag", "g", "n", "setv"]
+    P = ["cls", "m", "k", "i1", "i2", "i3", "flag", "g", "n", "setv", "lk"]
     for cls in (0, 1):
         nm = len(MEMBERS[cls])
-        pre = ["cls == %d" % cls, "0 <= m < %d" % nm, "0 <= k <= 3", "0 <= flag <= 1", "0 <= g <= 3", "-5 <= setv <= 999", "n <= 4"]
+        pre = ["cls == %d" % cls, "0 <= m < %d" % nm, "0 <= k <= 3", "0 <= flag <= 1", "0 <= g <= 3", "-5 <= setv <= 999", "n <= 4", "0 <= lk <= 1"]
         parts = []
         for j, (n_, _) in enumerate(MEMBERS[cls]):
             if n_ == "cancel":
@@ -267,7 +269,7 @@ def families(tier):
                 parts.append(["m == %d" % j])
         fams.append(Family(name="cmd%d" % cls, fn="tpl_cmd", params=P, pre=pre, parts=parts,
                            twin_pre=["m == %d" % [i for i, (n_, _) in enumerate(MEMBERS[cls]) if n_ == "get_group_ids"][0], "k == 1", "g == 0"],
-                           twin_args=[cls, [i for i, (n_, _) in enumerate(MEMBERS[cls]) if n_ == "get_group_ids"][0], 1, 0, 0, 0, 0, 0, 0, 0]))
+                           twin_args=[cls, [i for i, (n_, _) in enumerate(MEMBERS[cls]) if n_ == "get_group_ids"][0], 1, 0, 0, 0, 0, 0, 0, 0, 0]))
     fams.append(Family(name="conv", fn="tpl_conv", params=["x1", "a1", "x2", "a2", "x3", "a3", "x4", "a4"],
                        pre=["0 <= x1 <= 3", "0 <= a1 <= 4", "0 <= x2 <= 3", "0 <= a2 <= 4", "0 <= x3 <= 3", "0 <= a3 <= 4",
                             "0 <= x4 <= 3", "0 <= a4 <= 4"] + ([] if tier == "thorough" else ["x4 == 2", "a4 == 0"]),
